@@ -1,5 +1,6 @@
 import Qentem.Model.Tmpl.Spec
 import Qentem.Proofs.TmplText
+import Qentem.Proofs.TmplParseSegs
 /-!
 # C02 — rendering a well-formed template yields the documented expansion
 
@@ -51,6 +52,15 @@ theorem render_parse_print_text {R : Type} [RealLike R] (cx : RCtx R) (sx : Spec
     (parse cfg cx.content).bind (fun tags => renderTop cx tags (fuel + 1)) =
       .ok (expand sx t (2 * t.length + 2)) := by
   rw [Qentem.Tmpl.render_text cx cfg hn fuel, expand, expandList_text sx t _ ht (Nat.le_refl _), hc]
+
+/-- stage 2, parse half: the printed text of a template made of text, `{var:p}` and `{raw:p}`
+(texts and paths free of `{ < }`, paths of 1..255 units) parses to exactly one Variable /
+RawVariable tag per segment at the offsets the printer put them (`tagsOf`), nothing else. -/
+theorem parse_segs {R : Type} (cfg : ScanCfg R) (segs : List Seg) (hok : ∀ s ∈ segs, s.ok)
+    (hn : (printList (segsTpl segs)).length + 16 < 4294967296) :
+    parse cfg (printList (segsTpl segs)) = .ok (tagsOf 0 segs) := by
+  rw [printSegs_eq] at hn ⊢
+  exact Qentem.Tmpl.parse_segs cfg segs hok hn
 
 /-- side conditions under which the document determines the output (the generator of
 `checks/c02.py` produces exactly such templates) — informal list kept next to the statement:
